@@ -3,7 +3,7 @@ import BevySyncModel.Slice.Comp
 namespace BevySync
 namespace Comp
 
-variable {V : Type}
+variable {V : Type} {ra : Bool}
 
 @[simp] theorem lastOr_nil (x : Option V) : lastOr x [] = x := rfl
 @[simp] theorem lastOr_cons (x : Option V) (v : V) (l : List V) : lastOr x (v :: l) = lastOr (some v) l := rfl
@@ -102,7 +102,7 @@ def HostWrites : Act V → Prop
   | _ => True
 
 theorem hinv_step (s : State V) (a : Act V) (hi : HInv s) (ha : HostWrites a) :
-    HInv (step false replace s a) := by
+    HInv (step ra false replace s a) := by
   obtain ⟨ht, hd, hv, hc⟩ := hi
   cases a with
   | writeH v =>
@@ -254,7 +254,7 @@ theorem ids_map (g : Client V → Client V) (cs : List (Client V)) (hg : ∀ c, 
 
 /-- no action adds, removes or renames a client -/
 theorem ids_step (lg : Bool) (pt : V → V → V) (s : State V) (a : Act V) :
-    (step lg pt s a).clients.map (·.id) = s.clients.map (·.id) := by
+    (step ra lg pt s a).clients.map (·.id) = s.clients.map (·.id) := by
   cases a with
   | writeH v => rfl
   | detectH => rfl
@@ -281,7 +281,7 @@ theorem ids_step (lg : Bool) (pt : V → V → V) (s : State V) (a : Act V) :
   | flushC i => exact ids_onClient _ _ _ (fun c => by split <;> rfl)
 
 theorem cinv_step (w : Nat) (s : State V) (a : Act V) (hi : CInv w s) (ha : ClientWrites w a) :
-    CInv w (step false replace s a) := by
+    CInv w (step ra false replace s a) := by
   obtain ⟨hn, hq, hf, he, hc⟩ := hi
   refine ⟨by rw [ids_step]; exact hn, ?_⟩
   cases a with
@@ -357,18 +357,42 @@ theorem cinv_step (w : Nat) (s : State V) (a : Act V) (hi : CInv w s) (ha : Clie
           · exact hne
           · have := (apply_changed_iff s.host v).mpr hne
             rw [hch] at this; cases this
-        simp only [hun, Bool.false_eq_true, if_false]
-        refine ⟨hq, hf, he', fun c hcm => ?_⟩
-        obtain ⟨hw, hr⟩ := hc c hcm
-        refine ⟨fun h => ?_, hr⟩
-        obtain ⟨b1, b2, b3, b4, b5⟩ := hw h
-        refine ⟨b1, b2, b3, b4, ?_⟩
-        rcases b5 with b5 | b5
-        · exact Or.inl b5
-        · right
-          simpa [hdl, hval] using b5
+        cases ra with
+        | false =>
+          simp only [hun, Bool.or_self, Bool.false_eq_true, if_false]
+          refine ⟨hq, hf, he', fun c hcm => ?_⟩
+          obtain ⟨hw, hr⟩ := hc c hcm
+          refine ⟨fun h => ?_, hr⟩
+          obtain ⟨b1, b2, b3, b4, b5⟩ := hw h
+          refine ⟨b1, b2, b3, b4, ?_⟩
+          rcases b5 with b5 | b5
+          · exact Or.inl b5
+          · right
+            simpa [hdl, hval] using b5
+        | true =>
+          simp only [hun, Bool.or_true, if_true]
+          refine ⟨hq, hf, he', ?_⟩
+          apply forall_map
+          intro c hcm
+          obtain ⟨hw, hr⟩ := hc c hcm
+          by_cases hcw : c.id = w
+          · have hci : c.id = i := by rw [hcw, hiw]
+            simp only [hci, if_true]
+            refine ⟨fun h => ?_, fun h => absurd (hci.trans hiw) (by simpa [hci] using h)⟩
+            obtain ⟨b1, b2, b3, b4, b5⟩ := hw hcw
+            refine ⟨b1, b2, b3, b4, ?_⟩
+            rcases b5 with b5 | b5
+            · exact Or.inl b5
+            · right
+              simpa [hdl, hval] using b5
+          · have hci : c.id ≠ i := by rw [hiw]; exact hcw
+            simp only [hci, if_false]
+            refine ⟨fun h => absurd h hcw, fun _ => ?_⟩
+            obtain ⟨b1, b2, b3, b4⟩ := hr hcw
+            refine ⟨b1, b2, b3, ?_⟩
+            simp only [← List.append_assoc, lastOr_snoc, hval]
       | true =>
-        simp only [if_true]
+        simp only [Bool.true_or, if_true]
         have hq' : (apply false replace s.host v).1.queue = [] := by rw [apply_queue]; exact hq
         refine ⟨hq', apply_flags s.host v hf, he', ?_⟩
         apply forall_map
@@ -502,13 +526,13 @@ theorem clean_cinv (w : Nat) (x : Option V) (s : State V) (hn : (s.clients.map (
 
 /-- host-writer epoch, with the host's value tracked -/
 theorem hinv_run (s : State V) (as : List (Act V)) (hi : HInv s) (ha : ∀ a ∈ as, HostWrites a) :
-    HInv (run false replace s as) ∧ (run false replace s as).host.val = lastWritten s.host.val as := by
+    HInv (run ra false replace s as) ∧ (run ra false replace s as).host.val = lastWritten s.host.val as := by
   induction as generalizing s with
   | nil => exact ⟨hi, rfl⟩
   | cons a as ih =>
     have ha1 := ha a (by simp)
-    have hstep := hinv_step s a hi ha1
-    have hval : (step false replace s a).host.val = writeOf s.host.val a := by
+    have hstep := hinv_step (ra := ra) s a hi ha1
+    have hval : (step ra false replace s a).host.val = writeOf s.host.val a := by
       cases a with
       | writeH v => rfl
       | detectH => simp [step, detect_val, writeOf]
@@ -520,7 +544,7 @@ theorem hinv_run (s : State V) (as : List (Act V)) (hi : HInv s) (ha : ∀ a ∈
       | reactC i => rfl
       | pollC i n => rfl
       | flushC i => rfl
-    have := ih (step false replace s a) hstep (fun b hb => ha b (by simp [hb]))
+    have := ih (step ra false replace s a) hstep (fun b hb => ha b (by simp [hb]))
     simp only [run, List.foldl_cons, lastWritten] at this ⊢
     rw [hval] at this
     exact this
@@ -529,8 +553,8 @@ theorem hinv_run (s : State V) (as : List (Act V)) (hi : HInv s) (ha : ∀ a ∈
 only the host writes, once nothing is pending every client holds the host's value, which is the most
 recent write, and the state is clean again (ready for an epoch with any other writer) -/
 theorem host_epoch_converges (x : Option V) (s : State V) (as : List (Act V)) (hc : Clean x s)
-    (ha : ∀ a ∈ as, HostWrites a) (hq : Quiescent (run false replace s as)) :
-    Clean (lastWritten x as) (run false replace s as) := by
+    (ha : ∀ a ∈ as, HostWrites a) (hq : Quiescent (run ra false replace s as)) :
+    Clean (lastWritten x as) (run ra false replace s as) := by
   obtain ⟨⟨ht, hd, _, hcl⟩, hval⟩ := hinv_run s as (clean_hinv x s hc) ha
   rw [hc.1] at hval
   obtain ⟨q1, q2, q3, q4⟩ := hq
@@ -548,13 +572,13 @@ def CInvL (w : Nat) (y : Option V) (s : State V) : Prop :=
 
 theorem cinvl_run (w : Nat) (s : State V) (as : List (Act V)) (y : Option V) (hi : CInvL w y s)
     (ha : ∀ a ∈ as, ClientWrites w a) :
-    CInvL w (lastWritten y as) (run false replace s as) := by
+    CInvL w (lastWritten y as) (run ra false replace s as) := by
   induction as generalizing s y with
   | nil => exact hi
   | cons a as ih =>
     have ha1 := ha a (by simp)
-    have hstep := cinv_step w s a hi.1 ha1
-    have hval : ∀ c ∈ (step false replace s a).clients, c.id = w → c.p.val = writeOf y a := by
+    have hstep := cinv_step (ra := ra) w s a hi.1 ha1
+    have hval : ∀ c ∈ (step ra false replace s a).clients, c.id = w → c.p.val = writeOf y a := by
       cases a with
       | writeH v => exact absurd ha1 (by simp [ClientWrites])
       | detectH => exact hi.2
@@ -606,34 +630,34 @@ theorem cinvl_run (w : Nat) (s : State V) (as : List (Act V)) (y : Option V) (hi
           simp only [hdf] at hcw
           have hd := ((hi.1.2.2.2.2 c hcm).1 hcw).2.1
           rw [hdf] at hd; cases hd
-    have := ih (step false replace s a) _ ⟨hstep, hval⟩ (fun b hb => ha b (by simp [hb]))
+    have := ih (step ra false replace s a) _ ⟨hstep, hval⟩ (fun b hb => ha b (by simp [hb]))
     simp only [run, List.foldl_cons, lastWritten] at this ⊢
     exact this
 
 /-- **convergence, client-writer epoch** (the value travels client → host → every other client) -/
 theorem client_epoch_converges (w : Nat) (x : Option V) (s : State V) (as : List (Act V))
     (hn : (s.clients.map (·.id)).Nodup) (hw : ∃ c ∈ s.clients, c.id = w) (hc : Clean x s)
-    (ha : ∀ a ∈ as, ClientWrites w a) (hq : Quiescent (run false replace s as)) :
-    Clean (lastWritten x as) (run false replace s as) := by
+    (ha : ∀ a ∈ as, ClientWrites w a) (hq : Quiescent (run ra false replace s as)) :
+    Clean (lastWritten x as) (run ra false replace s as) := by
   have hl : CInvL w x s := ⟨clean_cinv w x s hn hc, fun c hcm _ => (hc.2.2.2.2.2 c hcm).1⟩
   obtain ⟨⟨_, iq, it, ie, icl⟩, ival⟩ := cinvl_run w s as x hl ha
   obtain ⟨q1, q2, q3, q4⟩ := hq
   -- the writer still exists
-  have hex : ∃ c ∈ (run false replace s as).clients, c.id = w := by
+  have hex : ∃ c ∈ (run ra false replace s as).clients, c.id = w := by
     have hids : ∀ (s : State V) (as : List (Act V)),
-        (run false replace s as).clients.map (·.id) = s.clients.map (·.id) := by
+        (run ra false replace s as).clients.map (·.id) = s.clients.map (·.id) := by
       intro s as
       induction as generalizing s with
       | nil => rfl
       | cons a as ih => simp only [run, List.foldl_cons] at ih ⊢; rw [ih, ids_step]
     obtain ⟨c, hcm, hcw⟩ := hw
-    have : w ∈ (run false replace s as).clients.map (·.id) := by
+    have : w ∈ (run ra false replace s as).clients.map (·.id) := by
       rw [hids]; exact List.mem_map.mpr ⟨c, hcm, hcw⟩
     obtain ⟨c', hc', hcw'⟩ := List.mem_map.mp this
     exact ⟨c', hc', hcw'⟩
   obtain ⟨cw, hcwm, hcww⟩ := hex
   -- host = writer
-  have hhost : (run false replace s as).host.val = lastWritten x as := by
+  have hhost : (run ra false replace s as).host.val = lastWritten x as := by
     obtain ⟨b1, b2, b3, b4, b5⟩ := (icl cw hcwm).1 hcww
     obtain ⟨d1, d2, d3, d4, d5⟩ := q4 cw hcwm
     rcases b5 with b5 | b5
@@ -649,7 +673,7 @@ theorem client_epoch_converges (w : Nat) (x : Option V) (s : State V) (as : List
     rw [← hhost]; simpa [d3, d5] using b4
 
 theorem ids_run (lg : Bool) (pt : V → V → V) (s : State V) (as : List (Act V)) :
-    (run lg pt s as).clients.map (·.id) = s.clients.map (·.id) := by
+    (run ra lg pt s as).clients.map (·.id) = s.clients.map (·.id) := by
   induction as generalizing s with
   | nil => rfl
   | cons a as ih => simp only [run, List.foldl_cons] at ih ⊢; rw [ih, ids_step]
@@ -671,26 +695,26 @@ def Epoch.writerPresent (e : Epoch V) (s : State V) : Prop :=
   | some w => ∃ c ∈ s.clients, c.id = w
 
 /-- every epoch keeps the single-writer discipline and ends drained -/
-def EpochsOk (s : State V) : List (Epoch V) → Prop
+def EpochsOk (ra : Bool) (s : State V) : List (Epoch V) → Prop
   | [] => True
   | e :: es =>
-    e.disciplined ∧ e.writerPresent s ∧ Quiescent (run false replace s e.acts) ∧
-      EpochsOk (run false replace s e.acts) es
+    e.disciplined ∧ e.writerPresent s ∧ Quiescent (run ra false replace s e.acts) ∧
+      EpochsOk ra (run ra false replace s e.acts) es
 
-def runEpochs (s : State V) (es : List (Epoch V)) : State V :=
-  es.foldl (fun s e => run false replace s e.acts) s
+def runEpochs (ra : Bool) (s : State V) (es : List (Epoch V)) : State V :=
+  es.foldl (fun s e => run ra false replace s e.acts) s
 
 def lastWrittenEpochs (x : Option V) (es : List (Epoch V)) : Option V :=
   es.foldl (fun x e => lastWritten x e.acts) x
 
 theorem epochs_converge (x : Option V) (s : State V) (es : List (Epoch V))
-    (hn : (s.clients.map (·.id)).Nodup) (hc : Clean x s) (hok : EpochsOk s es) :
-    Clean (lastWrittenEpochs x es) (runEpochs s es) := by
+    (hn : (s.clients.map (·.id)).Nodup) (hc : Clean x s) (hok : EpochsOk ra s es) :
+    Clean (lastWrittenEpochs x es) (runEpochs ra s es) := by
   induction es generalizing s x with
   | nil => exact hc
   | cons e es ih =>
     obtain ⟨hd, hp, hq, hrest⟩ := hok
-    have hclean : Clean (lastWritten x e.acts) (run false replace s e.acts) := by
+    have hclean : Clean (lastWritten x e.acts) (run ra false replace s e.acts) := by
       cases hw : e.writer with
       | none =>
         simp only [Epoch.disciplined, hw] at hd
@@ -698,7 +722,7 @@ theorem epochs_converge (x : Option V) (s : State V) (es : List (Epoch V))
       | some w =>
         simp only [Epoch.disciplined, Epoch.writerPresent, hw] at hd hp
         exact client_epoch_converges w x s e.acts hn hp hc hd hq
-    have hn' : ((run false replace s e.acts).clients.map (·.id)).Nodup := by rw [ids_run]; exact hn
+    have hn' : ((run ra false replace s e.acts).clients.map (·.id)).Nodup := by rw [ids_run]; exact hn
     exact ih _ _ hn' hclean hrest
 
 end Comp
